@@ -344,7 +344,11 @@ func (e *Engine) storePtr(st *State, p *Ptr, v Val) {
 			return
 		}
 		old := st.cells[p.Cell]
-		if old.K != kTerm || v.K != kTerm {
+		if v.K != kTerm {
+			// pointers, closures, function values stored into a field of a local struct: their term form
+			v = term(e.asTerm(st, v), e.ptrElemType(p))
+		}
+		if old.K != kTerm {
 			panic("field store on non-term cell")
 		}
 		// name the updated struct value: nested constructor terms otherwise grow exponentially
